@@ -566,3 +566,72 @@ def run_concurrent(args):
         return {'root': root, 'outs': outs, 'tree': tree}
     except BaseException as e:
         return {'harness_error': f'{type(e).__name__}: {e}', 'tb': traceback.format_exc()[-1500:]}
+
+
+def run_reentrant(args):
+    """args: (casedir, spec); spec: {'models', 'pre': items, 'a': items, 'b': items, 'at': [event, path suffix]}.
+    The items of b run, on a context object of their own, inside the audit hook right before the first event
+    `at` of the items of a: the schedule "another process does all of b between two system calls of a",
+    deterministically and in one process.  Returns the outcomes and the notes found in results.json / results.csv."""
+    casedir, spec = args
+    try:
+        init_worker()
+        shutil.rmtree(casedir, ignore_errors=True)
+        os.makedirs(casedir)
+        root = os.path.join(casedir, 'r')
+        os.makedirs(root)
+        if spec['pre']:
+            run_phase(root, spec['pre'], spec['models'], -1, os.path.join(casedir, 'pre.jsonl'))
+        sys.stdout.flush()
+        sys.stderr.flush()
+        outpath = os.path.join(casedir, 'out.json')
+        pid = os.fork()
+        if pid == 0:
+            try:
+                keys = _STATE['variants']
+                hs = {'armed': False}
+                out = {'a': [], 'b': []}
+
+                def run_items(who, items):
+                    st = {'root': root, 'ctx': None, 'keys': keys}
+                    for item in items:
+                        if who == 'a' and item is items[-1]:
+                            hs['armed'] = True
+                        try:
+                            exec_item(st, item, spec['models'])
+                            out[who].append({'ok': True})
+                        except BaseException as e:
+                            out[who].append({'ok': False, 'err': type(e).__name__})
+                    if who == 'a':
+                        hs['armed'] = False
+
+                def hook(ev, a):
+                    if hs['armed'] and ev == spec['at'][0] and a and isinstance(a[0], str) and a[0].endswith(spec['at'][1]):
+                        hs['armed'] = False
+                        run_items('b', spec['b'])
+
+                sys.addaudithook(hook)
+                run_items('a', spec['a'])
+                with open(outpath, 'w') as fh:
+                    json.dump(out, fh)
+                os._exit(0)
+            except BaseException:
+                traceback.print_exc()
+                os._exit(3)
+        os.waitpid(pid, 0)
+        outs = json.load(open(outpath))
+        cdir = os.path.join(root, CTX_NAME)
+        notes = {}
+        try:
+            notes['json_note'] = json.load(open(os.path.join(cdir, 'results.json'))).get('note')
+        except Exception as e:
+            notes['json_note'] = 'unreadable: ' + type(e).__name__
+        try:
+            lines = open(os.path.join(cdir, 'results.csv')).read().splitlines()      # name, value, blank line, ...
+            notes['csv_note'] = lines[lines.index('note') + 1]
+        except Exception as e:
+            notes['csv_note'] = 'unreadable: ' + type(e).__name__
+        shutil.rmtree(casedir, ignore_errors=True)
+        return {'outs': outs, 'notes': notes}
+    except BaseException as e:
+        return {'harness_error': f'{type(e).__name__}: {e}', 'tb': traceback.format_exc()[-1500:]}
